@@ -29,7 +29,23 @@ def scenarios(quick):
     return out
 
 
+def model_scenarios():
+    out = []
+    for w in (0, 2):
+        for starts in ((0, 1),):
+            fns = [[fn(2, "R1", None, True)], [fn(1, "R1", None, True)]]
+            base = [start(1, starts[0]), start(2, starts[1])]
+            out.append(scenario([bh("b", 1, wait=w)], fns, base))
+            out.append(scenario([bh("b", 1, wait=w)], fns, base + [env("CtxCancel", 1, 2)]))
+            out.append(scenario([to(1), bh("b", 1, wait=w)], fns, base))
+    out.append(scenario([bh("b", 1, wait=2)], [[fn(2, "R1", None, True)]], [env("BhTake", 0, id="b"), start(1), env("BhRelease", 1, id="b")]))
+    return out
+
+
 def run(ctx):
+    import tmc
+    tscen.ASYNC_FIX = tscen.async_fix_in_code()
+    tmc.model_check(ctx, "bh", model_scenarios(), ["MC_NoStuckThread", "MC_AllReturn", "MC_C06", "MC_Conservation"])
     scs = scenarios(ctx.tier == "quick")
     if ctx.tier == "quick":      # several concurrent executions make validation expensive: every 6th scenario, offset by the seed
         scs = scs[ctx.seed % 6::6]
